@@ -252,12 +252,13 @@ class J1939_21:
                             # recalc next wakeup
                             if next_wakeup > buf['deadline']:
                                 next_wakeup = buf['deadline']
+                            # state is updated and ready for recv - now send data
+                            self.__send_tp_dt(buf['src_address'], buf['dest_address'], data)
                         else:
-                            # done
+                            # last packet: release the session only once the packet is on the bus, otherwise a
+                            # broadcast submitted by another thread in between is announced before this one is complete
+                            self.__send_tp_dt(buf['src_address'], buf['dest_address'], data)
                             del self._snd_buffer[bufid]
-
-                        # state is updated and ready for recv - now send data
-                        self.__send_tp_dt(buf['src_address'], buf['dest_address'], data)
                     elif buf['state'] == self.SendBufferState.TRANSMISSION_FINISHED:
                         del self._snd_buffer[bufid]
                     else:
